@@ -38,9 +38,7 @@ def run(ctx):
     from . import c19
     c19.run(ctx, only_get=True)
     ctx.run_explorations()
-    first_stats = dict(ctx.explore_stats)
     it = ctx.build(by_contract=['dsutils.decode', 'dsutils.encode', 'dsutils.encode_element'])
-    ctx.earlier_explore_stats = first_stats
     sc = it.modules['pynetdicom2.sopclass']
     dm = it.modules['pynetdicom2.dimsemessages']
     st = it.modules['pynetdicom2.statuses']
